@@ -310,3 +310,9 @@ func walk(v reflect.Value, sb *strings.Builder, seen map[uintptr]bool, depth int
 		fmt.Fprintf(sb, "<%s>", v.Kind())
 	}
 }
+
+func FireTimers(n int) int                { time.Sleep(10 * time.Millisecond); return 0 }
+func Tickers() int                        { return 0 }
+func TickInterval(i int) time.Duration    { return -1 }
+
+func FireTicker(i int) bool { time.Sleep(10 * time.Millisecond); return false }
